@@ -1,5 +1,32 @@
 // Contracts and proof harnesses for contracts/interchain-token/src/contract.rs (every entry point).
 use super::*;
+// named explicitly: the harness must not depend on which of these the file under verification happens to import
+use axelar_soroban_std::token::validate_token_metadata;
+use axelar_soroban_std::ttl::extend_instance_ttl;
+use axelar_soroban_std::ttl::extend_persistent_ttl;
+use soroban_token_sdk::metadata::TokenMetadata;
+use soroban_token_sdk::TokenUtils;
+use crate::error::ContractError;
+use crate::event;
+use crate::storage_types::DataKey;
+use crate::interface::InterchainTokenInterface;
+use crate::storage_types::AllowanceDataKey;
+use crate::storage_types::AllowanceValue;
+use axelar_soroban_std::interfaces::OwnableInterface;
+use axelar_soroban_std::interfaces;
+use axelar_soroban_std::Upgradable;
+use soroban_sdk::token::StellarAssetInterface;
+use soroban_sdk::token::TokenInterface;
+use soroban_sdk::assert_with_error;
+use soroban_sdk::contract;
+use soroban_sdk::contractimpl;
+use soroban_sdk::panic_with_error;
+use soroban_sdk::token;
+use soroban_sdk::Address;
+use soroban_sdk::BytesN;
+use soroban_sdk::Env;
+use soroban_sdk::String;
+use soroban_token_sdk::event::Events as TokenEvents;
 use soroban_sdk::shim::{self, inst, pers, temp, Wordy, Words, OWNER_KEY};
 use soroban_sdk::{symbol_short, Symbol};
 
